@@ -42,6 +42,8 @@ static Packet cmPacket(int d, int v)
     k.setDeviceId(kDev[d]);
     k.setStreamId((uint8_t) (v + 1));
     k.setTimestamp(100 + d * 10 + v);
+    if (v)
+        k.setInterfaceId(kIf[1]);   // an attribute without meaning for a capture-module status message
     // the second variant looks like what a decoder hands over for a status message that arrived in segments: the reassembled
     // packet keeps the first segment's common flags (segmentation bits 0x04), here with overflow and recalc, another version,
     // vendor id and counter - it is a status message like any other
@@ -66,6 +68,10 @@ static Packet ifPacket(int d, int i, int v)
     k.setDeviceId(kDev[d]);
     k.setStreamId((uint8_t) (i + 1));
     k.setTimestamp(1000 + d * 100 + i * 10 + v);
+    // the packet's own interface-id attribute (a header field data messages use; a status message carries its interface id in the
+    // payload) is set to the OTHER interface's id in one variant and left 0 in the other: it means nothing to the tracker
+    if (v)
+        k.setInterfaceId(kIf[1 - i] ? kIf[1 - i] : 0x12345);
     if (v)
     {
         k.setCommonFlags(0x2A);   // intermediary-segment bits 0x08, overflow, insync
